@@ -75,9 +75,19 @@ def rules(P, R, prefix="C15", auth=None):
         R.stat("panic_sites_" + cfg, len(PA.sites))
         R.floor(prefix + ".A10", len(PA.sites), 150, "panic-capable MIR sites in the node universe" + tag)
         status = PA.immortal()
+        dependent = {}      # dead actor id -> channel-liveness sites that become reachable
         for s in PA.sites:
             total_sites += 1
             d = PA.discharge(s)
+            if d is None:
+                deps = PA.peer_dependencies(s)
+                dead = sorted(a for a in (deps or ()) if not status.get(a, [False])[0])
+                if deps is not None and dead:
+                    # secondary: reachable only because a peer task can die; reported once per dead task below
+                    for a in dead:
+                        dependent.setdefault(a, []).append(s)
+                    R.ok(prefix + ".A10", "%s|%s%s" % (s.root, s.sig, tag), s.sp, "PEER-DEPENDENT: reachable only if task(s) %s die (reported under SVC)" % dead)
+                    continue
             if d is not None:
                 classes[d[0]] = classes.get(d[0], 0) + 1
                 R.ok(prefix + ".A10", "%s|%s%s" % (s.root, s.sig, tag), s.sp, "%s: %s" % d)
@@ -89,6 +99,16 @@ def rules(P, R, prefix="C15", auth=None):
                        "undischarged panic site in %s: %s (%s %s). %s" % (
                            s.root, s.sig, s.kind, s.what, detail or "no CONST/GUARD/SER/EXH/PEER/SELECT/AUTH/ENV rule applies"),
                        mir_def=s.mdef)
+        # every task that some channel-liveness site depends on must stay up
+        named = set()
+        for label, aid in SERVICES:
+            named |= {a.id for a in W.actors if a.id == aid or a.id.startswith(aid + "~")}
+        for aid, sites_ in sorted(dependent.items()):
+            if aid in named:
+                continue
+            ok_, why_ = status.get(aid, [False, "not analysed"])
+            R.fail(prefix + ".SVC", "%s stays up%s" % (aid, tag), "", "task %s can be taken down: %s; %d channel-liveness site(s) then panic "
+                   "in other tasks (first: %s in %s)" % (aid, why_, len(sites_), sites_[0].sig, sites_[0].root))
         # service immortality (the second sentence of the property)
         for label, aid in SERVICES:
             acts = [a for a in W.actors if a.id == aid or a.id.startswith(aid + "~")]
